@@ -266,6 +266,9 @@ func (s *Server) DidClose(ctx context.Context, params *protocol.DidCloseTextDocu
 		if s.workspace != nil {
 			if data, err := os.ReadFile(path); err == nil {
 				s.workspace.UpdateFile(path, string(data))
+			} else if os.IsNotExist(err) {
+				// never saved, or deleted while it was open: nothing of it is left
+				s.workspace.RemoveFile(path)
 			}
 		}
 		s.loader.InvalidateFile(path)
